@@ -669,9 +669,24 @@ func c10Gating(p *Prog, r *Report) {
 	k := "(*" + pkgExtDB + ".db).SetReader"
 	if fi := p.Func(k); fi != nil {
 		info := fi.Pkg.TypesInfo
-		f := p.FlatOf(fi)
+		// helpers of the upload path are spliced in
+		f := p.FlatInl(fi)
 		var copies []callSite
 		var closes []int
+		// the destination of the copy: the stream writer (a variable of the writer type, or whatever the copy writes to)
+		dst := map[types.Object]bool{}
+		for _, n := range f.Nodes {
+			if n.Ast == nil {
+				continue
+			}
+			for _, c := range callsIn(n.Ast, true) {
+				if isFunc(info, c, "io", "Copy") && len(c.Args) == 2 {
+					if o := objOf(info, c.Args[0]); o != nil {
+						dst[o] = true
+					}
+				}
+			}
+		}
 		for _, n := range f.Nodes {
 			if n.Ast == nil {
 				continue
@@ -681,7 +696,14 @@ func c10Gating(p *Prog, r *Report) {
 					copies = append(copies, f.bindOf(n, c))
 				}
 				if sel, ok := c.Fun.(*ast.SelectorExpr); ok && sel.Sel.Name == "Close" {
+					isWriter := false
 					if tv, ok := info.Types[sel.X]; ok && strings.Contains(tv.Type.String(), "streamwriter") {
+						isWriter = true
+					}
+					if o := objOf(info, sel.X); o != nil && dst[o] {
+						isWriter = true
+					}
+					if isWriter {
 						closes = append(closes, n.ID)
 						if _, isDefer := n.Ast.(*ast.DeferStmt); isDefer {
 							r.Viol("C10.f", k+"#close-gated", p.pos(c), "the stream is closed by a defer: a failed copy still completes the upload with truncated content")
